@@ -116,6 +116,17 @@ PROPS = {
         ],
         "assumptions": ["synctest.Wait() quiescence = the server has finished processing the message"],
     },
+    "C07": {
+        "level": "model_checking",
+        "engine": "explore (full configuration product)",
+        "technique": "exhaustive enumeration of the finite configuration matrix on the real client, server and transports (HTTP served in-process), against a reference negotiation function",
+        "claim": "8 requested versions (default, the 5 supported, an unknown older and newer string) x {in-memory, io pipes} x 3 advertised sets + SSE + streamable {stateful, stateless} x JSON responses x event store = 120 cells, each Connect+ListTools+CallTool: Connect fails only when the request is not mutually supported; otherwise the negotiated version is SDK-supported, servable by the transport (never 2026-07-28 on SSE/stateful), equals the request when mutually supported; discover is followed by an initialize fallback iff no modern overlap (observed on the wire); plus 135 scripted non-SDK servers (discover answers x initialize answers x requests): the negotiated version was offered by the server and is SDK-supported, or Connect fails",
+        "note": "a custom transport's ProtocolVersionSupporter is only held against versions >= 2026-07-28 (it filters what server/discover advertises; the legacy initialize handshake does not consult it)",
+        "parts": [
+            {"pkg": "mcp", "mode": "plain", "test": "TestVerifC07", "shards": 8},
+        ],
+        "assumptions": [],
+    },
     "C13": {
         "level": "model_checking",
         "engine": "explore (bounded-exhaustive product) under virtual time",
